@@ -346,7 +346,21 @@ def C11():
         replayers={}, design_ref="4/C11")
 
 
-PROPERTIES = {"C11": C11, "C20": C20, "C13": C13, "C01": C01, "C02": C02, "C05": C05, "C07": C07, "C09": C09, "C14": C14, "C15": C15, "C18": C18, "C04": C04, "C06": C06, "C08": C08, "C10": C10, "C12": C12, "C16": C16, "C19": C19}
+def C17():
+    from contracts.assemble import UNITS, LEMMAS, BOUNDED
+    return Property(
+        "C17", units=[ContractUnit(u) for u in UNITS] + LEMMAS + BOUNDED, level="proof",
+        technique="loop invariants with ghost offsets on the real assemble_rtf (lines as opaque values): output = first input minus its lone closing line, "
+                  "then per later input '\\page' + its lines from find_start_index on; nested find_start_index proved = last fcharset line + 2; effect "
+                  "trace: existence check before any open, nothing written for [] or a missing input, one write to the output path",
+        trusted_base=[SOLVERS, ENGINE, "open/readlines/writelines/os.path.exists as functions of the path during the call (assumed)",
+                      "layout of files written by rtflite (font table ends two lines before the body; last line is a lone closing brace): C01 skeleton + bounded read-back"],
+        assumptions=["inputs are non-empty files written by rtflite (C01 documents)",
+                     "well-formedness of the assembled text follows from the structural contract plus the layout assumption; the read-back of real assembled files is a bounded stand-in"],
+        replayers={}, design_ref="4/C17, A20")
+
+
+PROPERTIES = {"C17": C17, "C11": C11, "C20": C20, "C13": C13, "C01": C01, "C02": C02, "C05": C05, "C07": C07, "C09": C09, "C14": C14, "C15": C15, "C18": C18, "C04": C04, "C06": C06, "C08": C08, "C10": C10, "C12": C12, "C16": C16, "C19": C19}
 
 # ---- texts for MANIFEST.json (tools/gen_manifest.py) ------------------------------------------------------
 MANIFEST_TEXT = {
@@ -463,6 +477,15 @@ MANIFEST_TEXT = {
                 "JPEG scan terminating, the picture group carries blip keyword by format, pixel size, floor(inches*1440) goals, balanced "
                 "braces; positional size lookup reuses the last value.",
         "note": "bytes.hex, slicing and struct.unpack are assumed contracts; the per-page loop of figure documents is named as not yet under contract.",
+    },
+    "C17": {
+        "text": "For any number of inputs and any line contents: assemble_rtf checks existence before it opens anything, writes nothing for an empty "
+                "list or a missing input (FileNotFoundError), and otherwise writes once, to the output path, exactly: the first input's lines (minus a "
+                "lone closing-brace last line when more inputs follow), then for each later input the line '\\page' followed by its lines from two "
+                "past its last 'fcharset' line (again minus the closing line unless it is the last input), in argument order; a single input is "
+                "reproduced unchanged. find_start_index is proved against its specification.",
+        "note": "Lines are opaque values; that this line algebra yields one well-formed group with every input's pages and geometry depends on the "
+                "layout of rtflite-written files, covered by the C01 skeleton contract and a bounded read-back of real assembled files.",
     },
     "C18": {
         "text": "For the real bodies of the four export methods, on every exit path (normal, exception at encode, at conversion before/after it "
